@@ -288,14 +288,14 @@ SUITES = {
                        sys_suite("c20-sys-exhaustive", "c20_ok", {"n": 0, "shards": 6, "args": ["--exhaustive", "3"]},
                                  {"n": 0, "shards": 16, "args": ["--exhaustive", "2", "--pairs"]}, length=100),
                        # the failing MarkAsDispatched is the CORE repository's (before / after taking effect): the observable
-                       # wrapper sees it too. No model follows this placement: the predicate alone is evaluated (F20)
-                       sys_pred_suite("c20-sys-corefaults", "c20_ok", {"n": 40, "shards": 4}, {"n": 200, "shards": 16},
-                                      extra=["--faults", "--core-faults"]),
+                       # wrapper sees it too and still runs its hook (F20): fault kinds FBeforeHook / FAfter of Sys.v
+                       sys_suite("c20-sys-corefaults", "c20_ok", {"n": 40, "shards": 4}, {"n": 200, "shards": 16},
+                                 extra=["--faults", "--core-faults"]),
                        # cron / volatile configuration: the store's Pop fails transiently inside MarkAsDispatched (held to
                        # VSys.v, whose MarkAsDispatched accepts exactly that failure: head_bound)
                        vsys_suite("c20-vsys-faults", "vall_ok", {"n": 25, "shards": 4}, {"n": 60, "shards": 16},
                                   extra=["--vfaults"])],
-            "rule": "five suites. Held to the monitor: random multi-fault schedules over the in-memory and over the ent repository (a sixth of the scheduler's calls fails before or after taking effect, alternately with a plain error and a wrapped context.Canceled; failing look-ups inside the hook; dispatches cancelled while waiting for a worker) and, for seeded base scenarios, EVERY placement of one fault (thorough: of two faults) over the scheduler's calls before quiescence, one run per placement. Also held to its monitor (VSys.v): transient Pop failures of the store in the cron / volatile configuration. Predicate only (no model of the placement; not counted in traces_validated_against_impl): failures of the CORE repository's MarkAsDispatched below the observable wrapper. Every run ends with a fault-free quiescence phase; distinct = distinct sha1 of the printed label trace"},
+            "rule": "five suites. Held to the monitor: random multi-fault schedules over the in-memory and over the ent repository (a sixth of the scheduler's calls fails before or after taking effect, alternately with a plain error and a wrapped context.Canceled; failing look-ups inside the hook; dispatches cancelled while waiting for a worker) and, for seeded base scenarios, EVERY placement of one fault (thorough: of two faults) over the scheduler's calls before quiescence, one run per placement. Also held to the monitors: failures of the CORE repository's MarkAsDispatched below the observable wrapper (fault kinds FBeforeHook / FAfter), and transient Pop failures of the store in the cron / volatile configuration (VSys.v). Every run ends with a fault-free quiescence phase; distinct = distinct sha1 of the printed label trace"},
     "C07": {"suites": [
         hook_suite("c07-hook", {"n": 40, "shards": 8}, {"n": 400, "shards": 16}),
         hook_suite("c07-hook-faults", {"n": 30, "shards": 4}, {"n": 300, "shards": 16}, extra=["--faults"]),
